@@ -60,7 +60,7 @@ func (k *Known) Matches(f *Finding) bool {
 	if k.Target != f.Target || k.Class != f.Class {
 		return false
 	}
-	if k.Rule != f.Rule && !(k.RulePrefix != "" && strings.HasPrefix(f.Rule, k.RulePrefix)) {
+	if k.Rule != "*" && k.Rule != f.Rule && !(k.RulePrefix != "" && strings.HasPrefix(f.Rule, k.RulePrefix)) {
 		return false
 	}
 	if k.re != nil && !k.re.MatchString(f.Detail) {
